@@ -749,6 +749,10 @@ func TestListenerSpecs(t *testing.T) {
 		{"data~unix://" + up, "socket-unix", false},
 		{"data~stdin://", "stdio", false},
 		{"data~stdio://", "stdio", false},
+		// the optional forward address belongs to every listener kind
+		{"data~stdin://~tcp://127.0.0.1:9", "stdio", true},
+		{"data~stdio://~tcp://127.0.0.1:9", "stdio", true},
+		{"data~unix://" + up + "2~tcp://127.0.0.1:9", "socket-unix", true},
 		{"data", "", false},
 		{"data~", "", false},
 		{"data~ftp://127.0.0.1:1", "", false},
@@ -797,6 +801,14 @@ func TestListenerSpecs(t *testing.T) {
 					}
 				case *listener.InputOutputListener:
 					obs = "stdio"
+					if (l.Forward != nil) != c.Fwd {
+						obs += "-forward-mismatch"
+					} else if l.Forward != nil && l.Forward.Host != "127.0.0.1:9" {
+						obs += "-forward:" + l.Forward.String()
+					}
+					if l.Name != "data" {
+						obs += "-name:" + l.Name
+					}
 				default:
 					obs = fmt.Sprintf("%T", l)
 				}
@@ -817,6 +829,7 @@ func TestListenerSpecs(t *testing.T) {
 		}
 	}
 	os.Remove(up)
+	os.Remove(up + "2")
 }
 
 // ---- channel addresses -----------------------------------------------------------------------------------------
